@@ -354,6 +354,9 @@ func createTaskWithDir(dir string, opts GlobalOptions, lockPath, eventsPath, epi
 			if epic.EpicID != "" {
 				return fmt.Errorf("task %s is not an epic", epicID)
 			}
+			if !epic.IsEpic {
+				return fmt.Errorf("task %s is not an epic", epicID)
+			}
 		}
 		id, err := newShortID(graph.Tasks)
 		if err != nil {
